@@ -45,7 +45,8 @@ func deferUnlambda(m dsl.Matcher) {
 		Report("can rewrite as `defer $f($args)`")
 
 	m.Match(`defer func() { $pkg.$f($*args) }()`).
-		Where(m["f"].Node.Is(`Ident`) && m["args"].Const && m["pkg"].Object.Is(`PkgName`)).
+		Where(m["f"].Node.Is(`Ident`) && m["args"].Const && m["pkg"].Object.Is(`PkgName`) &&
+			!m["f"].Object.Is(`Var`)). // flag.Usage and the like can be re-assigned before the deferred call runs
 		Report("can rewrite as `defer $pkg.$f($args)`")
 }
 
